@@ -7,11 +7,16 @@ CONSTANTS
   ImgLists <- Lists4
   PubPaths = {1, 2}
   MaxRuns = 2
-  Modes = {"image", "sign"}
+  Modes = {"image", "sign", "auth"}
+  Iters = {0, 1, 65535}
+  OutPaths = {0, 1, 2}
+  MaxSteps = 3
   Variant = "ok"
 INVARIANT HashInputOk
 INVARIANT SinglePub
 INVARIANT SigVerifies
 INVARIANT PrivNotWritten
 INVARIANT KeyFreshPerRun
+INVARIANT AuthBinds
+INVARIANT AuthFiles
 CHECK_DEADLOCK FALSE
